@@ -490,7 +490,14 @@ func (g *gen) fn(sb *strings.Builder, depth int) {
 	case 0:
 		fmt.Fprintf(sb, "ISODate(%q)", isoDates[g.r.Intn(len(isoDates))])
 	case 1:
-		fmt.Fprintf(sb, "ISODate(%d)", g.r.Int63n(2_000_000_000_000))
+		switch g.r.Intn(6) {
+		case 0: // beyond what fits into int64 nanoseconds
+			fmt.Fprintf(sb, "ISODate(%d)", 9_223_372_036_855+g.r.Int63n(90_000_000_000_000))
+		case 1:
+			fmt.Fprintf(sb, "ISODate(-%d)", g.r.Int63n(2_000_000_000_000))
+		default:
+			fmt.Fprintf(sb, "ISODate(%d)", g.r.Int63n(2_000_000_000_000))
+		}
 	case 2:
 		fmt.Fprintf(sb, "ObjectId(\"%x\")", g.r.Int63())
 	case 3:
@@ -653,7 +660,8 @@ var exampleDocs = []string{
 	"[null true false]", "{null:1 true:2}", "{a:null}", "[a b c]", "[a,b,c]", "{a:b}", "{a :1}", "{a\n:1}", "{a:b c:d}", "{a}", "{a:}", "[{a:}]", "{a:1 b:}",
 	"{a:\n}", "{\"a\":}", "{:1}", "[a:1]", "[a", "[1 2", "[}", "{]", "é", "[Ａbc]", "Ａbc", "\xef\xbc\xa1", "\xef\xbb\xbf1", "\xef\xbb\xbf[a]", "\xef\xbb\xbfab",
 	"[1.]", "[1.e5]", "1.", "{a:1.}", "[-1.]", "[0.]", "f(\"abc\"]", "[f(\"abc\"])", "f(1 2]", "f(\"x\")", "f()", "f(1 2)", "f(a, b)", "f(f(1))", "{a:f(1)}",
-	"ObjectId(\"abc\")", "NumberInt(\"123\")", "NumberLong(\"99999999999999999999\")", "NumberDecimal(\"1.5\")", "ISODate(1624875072000)",
+	"ObjectId(\"abc\")", "NumberInt(\"123\")", "NumberLong(\"99999999999999999999\")", "NumberDecimal(\"1.5\")", "ISODate(1624875072000)", "ISODate(1624875072123)", "ISODate(-1500)", "ISODate(18190806821178)",
+	"NumberLong(\"4294967296\")", "NumberInt(\"-9223372036854775807\")", "NumberLong(\"9223372036854775808\")", "{a~b:1}", "[~ ^ _ .]", "a~",
 	"\"\\uD83D\\uDE00\"", "{\"a\":1,\"a\":2}", "{a:1 a:2}", "[9223372036854775807]", "[1e5]", "[-0]", "[0E0]",
 }
 
